@@ -261,6 +261,9 @@ class LoopParser(SubParser):
         # increment = 360 / counter, or
         # increment = 65536 / counter, based on unit_mode register
         code_gen.add_instruction(OpCode.MOVE, LoopVar.FIRST, self._index_var)
+        # With a count of zero there is nothing to divide by (and no pass).
+        code_gen.test_op(Operator.NOTEQ, LoopVar.COUNTER, 0)
+        nonzero_marker = code_gen.if_true_start()
         code_gen.test_op(Operator.EQ, Register.UNIT_MODE, UnitMode.RAW)
         marker = code_gen.if_true_start()
         code_gen.push(65536)
@@ -270,6 +273,9 @@ class LoopParser(SubParser):
         code_gen.push(LoopVar.COUNTER)
         code_gen.add_instruction(OpCode.OP, Operator.DIV)
         code_gen.add_instruction(OpCode.POP, LoopVar.INCR)
+        code_gen.if_else(nonzero_marker)
+        code_gen.add_instruction(OpCode.MOVEQ, 0, LoopVar.INCR)
+        code_gen.if_end(nonzero_marker)
         return True
 
     def _loop_test(self, code_gen) -> bool:
